@@ -334,10 +334,12 @@ class Database(object):
         return True
 
     # -- writes ------------------------------------------------------------------------------------------
-    def _touch(self, touched, t, pkey, ckey, col, how):
-        """batch conflict bookkeeping: (table, pkey, ckey or 'static' or '*', col or '*', how)"""
+    def _touch(self, touched, t, pkey, ckey, col, how, elems=None, deletion=False):
+        """batch conflict bookkeeping: (table, pkey, ckey or 'static' or '*', col or '*', how, element keys or None)
+        how: write (whole cell / collection) | element (single elements; elems = their keys, None for list append / prepend whose
+        cells are always new) | counter | rows;  deletion = the operation only removes data (two deletions never conflict)"""
         if touched is not None:
-            touched.append((t.name, pkey, ckey, col, how))
+            touched.append((t.name, pkey, ckey, col, how, None if elems is None else frozenset(elems), deletion))
 
     def _apply(self, st, params, touched):
         t = self._table(st.table)
@@ -401,10 +403,10 @@ class Database(object):
             role = t.roles[name]
             if role == "static":
                 p["static"][name] = v
-                self._touch(touched, t, pkey, "static", name, "write")
+                self._touch(touched, t, pkey, "static", name, "write", deletion=v is None)
             elif role == "regular":
                 r["cells"][name] = v
-                self._touch(touched, t, pkey, ckey, name, "write")
+                self._touch(touched, t, pkey, ckey, name, "write", deletion=v is None)
         self.log.append(("insert", t.name, {"using": using, "if_not_exists": st.if_not_exists}))
 
     def _compat(self, assignments):
@@ -466,13 +468,13 @@ class Database(object):
             raise Invalid("%s: non-counter operation on a counter table" % what)
         if a.kind == "set":
             cells[a.column] = check_value(ctype, raw, what)
-            self._touch(touched, t, pkey, where, a.column, "write")
+            self._touch(touched, t, pkey, where, a.column, "write", deletion=cells[a.column] is None)
             return
         if k not in ("set", "list", "map"):
             raise Invalid("%s: invalid operation (%s) for non collection, non counter column" % (what, a.kind))
-        self._touch(touched, t, pkey, where, a.column, "element")
         if a.kind == "put":
             key = self._val(a.key, params)
+            self._touch(touched, t, pkey, where, a.column, "element", [_hkey(key)], deletion=raw is None)
             if k == "map":
                 kk = check_value(ctype[1], key, what + " key")
                 if kk is None:
@@ -503,10 +505,12 @@ class Database(object):
             if k != "list":
                 raise Invalid("%s: prepend on a %s" % (what, k))
             v = check_value(ctype, raw, what) or []
+            self._touch(touched, t, pkey, where, a.column, "element", None)
             cells[a.column] = (v + list(cur or [])) or None
             return
         if a.kind == "add":
             v = check_value(ctype, raw, what)
+            self._touch(touched, t, pkey, where, a.column, "element", None if k == "list" else [_hkey(x) for x in (v or ())])
             if k == "list":
                 cells[a.column] = (list(cur or []) + (v or [])) or None
             elif k == "set":
@@ -523,9 +527,11 @@ class Database(object):
         if a.kind == "sub":
             if k == "list":
                 v = check_value(ctype, raw, what) or []
+                self._touch(touched, t, pkey, where, a.column, "write", deletion=True)
                 cells[a.column] = [x for x in (cur or []) if x not in v] or None
             elif k == "set":
                 v = check_value(ctype, raw, what) or set()
+                self._touch(touched, t, pkey, where, a.column, "element", [_hkey(x) for x in v], deletion=True)
                 for e in v:
                     if removed_added.get((a.column, e)) == "add":
                         raise Undefined("element added and removed by the same statement")
@@ -533,6 +539,7 @@ class Database(object):
                 cells[a.column] = (set(cur or ()) - v) or None
             else:
                 v = check_value(("set", ctype[1]), raw, what + " (keys to remove)") or set()
+                self._touch(touched, t, pkey, where, a.column, "element", [_hkey(x) for x in v], deletion=True)
                 cells[a.column] = dict((x, y) for x, y in (cur or {}).items() if x not in v) or None
             return
         raise Invalid("%s: unknown operation %s" % (what, a.kind))
@@ -560,7 +567,7 @@ class Database(object):
                 for ckey in targets:
                     for sel, ctype, role in sels:
                         if role == "regular" and t.row(pkey, ckey) is None:
-                            self._touch(touched, t, pkey, ckey, sel[1], "write")
+                            self._touch(touched, t, pkey, ckey, sel[1], "write", deletion=True)
                             continue
                         if role == "static" and t.part(pkey) is None:
                             continue
@@ -568,12 +575,12 @@ class Database(object):
                         where = "static" if role == "static" else ckey
                         if sel[0] == "col":
                             cells[sel[1]] = None
-                            self._touch(touched, t, pkey, where, sel[1], "write")
+                            self._touch(touched, t, pkey, where, sel[1], "write", deletion=True)
                             continue
                         key = self._val(sel[2], params)
                         k = ctype[0]
                         cur = cells.get(sel[1])
-                        self._touch(touched, t, pkey, where, sel[1], "element")
+                        self._touch(touched, t, pkey, where, sel[1], "element", [_hkey(key)], deletion=True)
                         if k == "map":
                             kk = check_value(ctype[1], key, "DELETE %s[..]" % sel[1])
                             if kk is None:
@@ -636,23 +643,27 @@ class Database(object):
         """two different statements of one batch on the same cell (or a row deletion with anything on the partition) -> Undefined"""
         seen = {}
         for i, touched in enumerate(touched_all):
-            for tname, pkey, ckey, col, how in touched:
+            for tname, pkey, ckey, col, how, elems, deletion in touched:
                 if how == "counter":
                     continue                                   # counter deltas commute
                 if how == "rows":
-                    for (tn, pk, ck, c), (j, h) in seen.items():
-                        if tn == tname and pk == pkey and j != i:
+                    for (tn, pk, ck, c), entries in seen.items():
+                        if tn == tname and pk == pkey and any(j != i for j, _, _, _ in entries):
                             raise Undefined("a batch deletes rows of a partition another of its statements writes")
-                    seen[(tname, pkey, "*", "*")] = (i, how)
+                    seen.setdefault((tname, pkey, "*", "*"), []).append((i, how, None, True))
                     continue
-                other = seen.get((tname, pkey, "*", "*"))
-                if other is not None and other[0] != i:
-                    raise Undefined("a batch deletes rows of a partition another of its statements writes")
+                for j, _, _, _ in seen.get((tname, pkey, "*", "*"), []):
+                    if j != i:
+                        raise Undefined("a batch deletes rows of a partition another of its statements writes")
+                if col == "<marker>":
+                    continue
                 key = (tname, pkey, ckey, col)
-                prev = seen.get(key)
-                if prev is not None and prev[0] != i and col != "<marker>":
-                    raise Undefined("two statements of a batch write the same cell %r (same timestamp: tie broken by value)" % (key,))
-                seen[key] = (i, how)
+                for j, h2, e2, d2 in seen.get(key, []):
+                    if j == i or (deletion and d2):
+                        continue
+                    if how == "write" or h2 == "write" or (elems is not None and e2 is not None and elems & e2):
+                        raise Undefined("two statements of a batch write the same cell %r (same timestamp: tie broken by value)" % (key,))
+                seen.setdefault(key, []).append((i, how, elems, deletion))
 
     # -- SELECT ------------------------------------------------------------------------------------------
     def _select(self, st, params):
@@ -765,6 +776,14 @@ class Database(object):
         if op == "contains key":
             return isinstance(x, dict) and v in x
         return False
+
+
+def _hkey(v):
+    try:
+        hash(v)
+        return v
+    except TypeError:
+        return repr(v)
 
 
 def _copy(v):
